@@ -12,7 +12,7 @@ W = os.path.join(vlib.BUILD, PROP)
 SRCS = ["src/monitoring/OnlineAverage.cpp", "src/monitoring/OnlineVariance.cpp", "src/monitoring/RateMonitoring.cpp",
         "src/diagnostics/CheckupRate.cpp", "src/diagnostics/CheckupReliability.cpp", "src/diagnostics/Diagnostic.cpp",
         "src/diagnostics/DiagnosticReport.cpp", "src/diagnostics/DiagnosticStatus.cpp"]
-KINDS = ["sv", "svw", "sov", "avg", "var", "ckeq", "ckgt", "cklt", "rel", "rm", "rceq", "rcgt"]
+KINDS = ["sv", "svw", "sov", "avg", "var", "ckeq", "ckgt", "ckpair", "cklt", "rel", "rm", "rceq", "rcgt"]
 INV = ["RaceFree", "CopyCoherent", "QuiescentCoherent"]
 
 
